@@ -19,10 +19,10 @@ MANIFEST = {
             'reader/writer, z3. CRC values are uninterpreted here (C08). Datetime-typed inputs (float path) are not '
             'covered.',
     'ref': '5 C02'}
-BOUNDS = {'quick': dict(ext_blocks='0..2 from {previous-node, age, hop-count, unknown}', eids='6 fixed EIDs',
+BOUNDS = {'quick': dict(ext_blocks='0..2 from {previous-node, age, hop-count, unknown}', eids='9 fixed EIDs (dtn: with and without demux, with ? # and : in the demux, dtn:none, ~multicast, ipn:)',
                         flags='7 flag sets incl. fragment and admin-record', crc='{0,1,2}',
                         admin='status report alone | next to prev+hop | next to an unknown block; about a whole bundle | about a fragment (symbolic offset from 0 and length)'),
-          'thorough': dict(ext_blocks='0..3', eids='6 fixed EIDs', flags='12 flag sets', crc='all combinations')}
+          'thorough': dict(ext_blocks='0..3', eids='9 fixed EIDs (dtn: with and without demux, with ? # and : in the demux, dtn:none, ~multicast, ipn:)', flags='12 flag sets', crc='all combinations')}
 ASSUMPTIONS = [
     'EIDs from a fixed list (text handling is concrete); uint fields in [0, 2^64)',
     'times given as integers (DTN time), not datetime objects',
@@ -31,10 +31,11 @@ REQUIRED_CLASSES = {'all': ['plain', 'fragment', 'admin']}
 QUICK_VALIDATE = 3
 MAX_PATHS = {'quick': 20000, 'thorough': 200000}
 
-EIDS = ['dtn://node/svc', 'dtn://n/', 'dtn:none', 'ipn:1.2', 'ipn:0.0', 'dtn:~mcast/x']
+EIDS = ['dtn://node/svc', 'dtn://n/', 'dtn:none', 'ipn:1.2', 'ipn:0.0', 'dtn:~mcast/x', 'dtn://n/a?b=1#c', 'dtn://n/?', 'dtn://n/urn:x:7']
 SHAPES = ['payload', 'prev', 'age', 'hop', 'unknown', 'prev+hop', 'age+unknown', 'hop+hop']
 
 
+OTHER_CONTENT = [0, False, '', b'', [], {}, 7, [1, 2], 'text', b'\x01\x02', None]
 WIDE_SETS = ['lifetime+dtntime+seqno', 'P+foff+ftotal', 'age+lim+cnt', 'lifetime+P+st_time', 'seqno+foff+age']
 
 
@@ -46,7 +47,7 @@ def cases(tier):
             for j, wide in enumerate(WIDE_SETS):
                 if tier == 'quick' and (i * 2 + j + (kind == 'fragment')) % 7:
                     continue
-                out.append(dict(kind=kind, shape=shape, crc=(i + j) % 3, eid=(i + j) % 3, wide=wide))
+                out.append(dict(kind=kind, shape=shape, crc=(i + j) % 3, eid=(i + j) % 9, wide=wide))
     # status reports: alone and next to extension blocks (as forwarded by a node that adds blocks); about a whole
     # bundle and about a fragment (offset symbolic from 0)
     for crc in (0, 2):
@@ -56,6 +57,8 @@ def cases(tier):
                     continue
                 out.append(dict(kind='admin', shape=shape, crc=crc, eid=1, subj=subj,
                                 wide='lifetime+P+st_time' if subj == 'whole' else 'st_time+sfoff+slen'))
+    # administrative records of other types: the content is an arbitrary CBOR item kept as it is
+    out.append(dict(kind='admin', shape='payload', crc=2, eid=1, subj='other', wide='lifetime+P+st_time'))
     return out
 
 
@@ -70,8 +73,9 @@ def build_inputs(c, case, tier):
     admin = case['kind'] == 'admin'
     e0 = case['eid']
     flags = (1 if frag else 0) | (2 if admin else 0) | [0, 4, 0x20, 0x44000][c.choose(4, 'flags')]
-    p = dict(version=7, flags=flags, crc_type=case['crc'], destination=EIDS[e0], source=EIDS[(e0 + 3) % 6],
-             report_to=EIDS[(e0 + 2) % 6], lifetime=rng('lifetime', 2 ** 64 - 1),
+    ne = len(EIDS)
+    p = dict(version=7, flags=flags, crc_type=case['crc'], destination=EIDS[e0 % ne], source=EIDS[(e0 + 3) % ne],
+             report_to=EIDS[(e0 + 2) % ne], lifetime=rng('lifetime', 2 ** 64 - 1),
              create_ts=[rng('dtntime', 2 ** 64 - 1), rng('seqno', 2 ** 64 - 1)])
     if frag:
         p['fragment_offset'] = rng('foff', 2 ** 64 - 1)
@@ -94,7 +98,12 @@ def build_inputs(c, case, tier):
             t = c.sym_int('utype%d' % num, 192, 255)
             blocks.append(dict(type=t, num=bn, flags=0x10, crc_type=case['crc'], data=c.sym_bytes('ublk%d' % num, 4), kind=name))
         num += 1
-    if admin:
+    if admin and case.get('subj') == 'other':
+        rtype = c.sym_int('rtype', 2, 23)
+        content = OTHER_CONTENT[c.choose(len(OTHER_CONTENT), 'record-content')]
+        rec = [rtype, content]
+        blocks.append(dict(type=1, num=1, flags=0, crc_type=case['crc'], data=rfc9171.enc(rec), kind='admin-other', rec=rec))
+    elif admin:
         t1 = c.sym_int('st_time', 1, 2 ** 64 - 1 if 'st_time' in wset else 23)
         rec = [1, [[[True, t1], [False], [True, t1], [False]], 5,
                    rfc9171.eid_cbor(EIDS[0]), [p['create_ts'][0], 7]]]
@@ -129,6 +138,9 @@ def impl_bundle(p, blocks):
             cb = cb / BundleAgeBlock(age=b['vals'][0])
         elif b['kind'] == 'hop':
             cb = cb / HopCountBlock(limit=b['vals'][0], count=b['vals'][1])
+        elif b['kind'] == 'admin-other':
+            from scapy_cbor.packets import CborItem
+            cb = cb / AdminRecord(type_code=b['rec'][0]) / CborItem(item=b['rec'][1])
         elif b['kind'] == 'admin':
             t1 = b['t1']
             skw = dict()
